@@ -299,6 +299,23 @@ def cases(tier, rng):
                 for dr in (0, 1):
                     yield case_line('it.weeks', date_of_dn(start), k, dr, 12)
                     yield case_line('it.whint', date_of_dn(start), k, dr)
+    # nth / nth_back (provided adaptor methods): jumps inside the range, onto the last item, one past
+    # it and far beyond (huge usize counts), near both range ends in both directions
+    for j in list(range(0, 12)) + [30, 100, 366]:
+        for start, dr in ((DN_MAX - j, 0), (DN_MIN + j, 1), (DN_MAX - j, 1), (DN_MIN + j, 0)):
+            near_end = (dr == 0 and start == DN_MAX - j) or (dr == 1 and start == DN_MIN + j)
+            ns = [0, 1, 2, 5, 40, 365] if not near_end else \
+                 sorted(set([0, 1, 2, max(j - 2, 0), max(j - 1, 0), j, j + 1, j + 2, 400, 2**31, 2**32 + 1, 2**63, U64_MAX]))
+            for n in ns:
+                yield case_line('it.dnth', date_of_dn(start), n, dr, 40)
+    for j in list(range(0, 16)) + [35, 70, 71, 700]:
+        for start, dr in ((DN_MAX - j, 0), (DN_MIN + j, 1), (DN_MAX - j, 1), (DN_MIN + j, 0)):
+            near_end = (dr == 0 and start == DN_MAX - j) or (dr == 1 and start == DN_MIN + j)
+            w = j // 7
+            ns = [0, 1, 2, 5, 52] if not near_end else \
+                 sorted(set([0, 1, max(w - 1, 0), w, w + 1, w + 2, 200, 2**31, 2**32 + 1, U64_MAX]))
+            for n in ns:
+                yield case_line('it.wnth', date_of_dn(start), n, dr, 12)
     for dn in dan[::4]:
         for k in (0, 1, 7, 400, 5000):
             for dr in (0, 1):
